@@ -326,7 +326,20 @@ fn asn1_run(p: &mut Prng, w: &mut World, i: usize) {
     let (d, _) = scalar_class(p, &n);
     w.exec(set("a.d", &be32(&d)));
     w.exec(json!({"op":"sm2.derive_pk","impl":"lib","d":"a.d","pk":"a.pk","comp":false}));
-    let len = if p.chance(1, 3) { *p.pick(&[1usize, 31, 32, 33, 127, 128, 129, 255, 256]) } else { p.range(1, 300) };
+    // DER length-form boundaries of the inner OCTET STRING (127/128, 255/256, 65535/65536) and of the
+    // outer SEQUENCE (content = len + ~104..108: len near 20, 148 and 65428), one per run in turn
+    const EDGE: [usize; 40] = [
+        1, 18, 19, 20, 21, 22, 23, 24, 25, 26, 127, 128, 129, 146, 147, 148, 149, 150, 151, 152, 153, 255, 256, 257, 65423, 65424, 65425, 65426, 65427, 65428, 65429, 65430, 65431, 65432,
+        65535, 65536, 65537, 66000, 70000, 131072,
+    ];
+    let len = if i % 5 == 3 {
+        w.bump("probe.asn1.length-form-edge");
+        EDGE[(i / 5) % EDGE.len()]
+    } else if p.chance(1, 3) {
+        *p.pick(&[1usize, 31, 32, 33, 127, 128, 129, 255, 256])
+    } else {
+        p.range(1, 300)
+    };
     w.exec(set("a.msg", &msg_of_len(p, len)));
     let order = if p.chance(1, 2) { "C1C2C3" } else { "C1C3C2" };
     let comp = p.chance(1, 3);
